@@ -1,0 +1,279 @@
+//go:build verif
+
+package quic
+
+// Export shims for the connection-level receive-path unit of the C16 (connection IDs) check of the
+// verification harness in /verif. Compiled only with -tags verif. Add-only, no behaviour change.
+//
+// VerifNewRecvConn builds a client or a server Conn with the production constructors
+// (newClientConnection / newConnection), the way the package's own receive-path tests do
+// (connection_test.go: newServerTestConnection / newClientTestConnection with connectionOptUnpacker and
+// connectionOptTracer), and replaces exactly one collaborator: the unpacker is an adapter around the
+// exported mirror VerifRecvUnpacker (there are no keys without a handshake; the harness reads cleartext
+// packets and records every call). The transport's routing table (connRunner) is an adapter around the
+// exported mirror VerifRecvRunner, so the harness sees which connection IDs the connection asks the
+// Transport to route. The socket is a stand-in that discards.
+//
+// The run loop is NOT started. Deliver hands one UDP datagram to Conn.handlePacket (what Transport does for
+// a datagram whose FIRST packet carries a routed Destination Connection ID) and then makes the call the run
+// loop makes when it is notified (Conn.handlePackets -> handleOnePacket -> processOnePacket ->
+// handleLongHeaderPacket / handleShortHeaderPacket -> handleFrames). Nothing is ever sent.
+//
+// The handshake is not run. Its effects on the connection are applied with the production methods, in the
+// order the run loop applies them (see HandleTransportParameters, CompleteHandshake).
+//
+// All methods must be called from one goroutine (they stand in for the run loop).
+
+import (
+	"context"
+	"net"
+	"time"
+
+	tls "github.com/refraction-networking/utls"
+
+	"github.com/refraction-networking/uquic/internal/handshake"
+	"github.com/refraction-networking/uquic/internal/monotime"
+	"github.com/refraction-networking/uquic/internal/protocol"
+	"github.com/refraction-networking/uquic/internal/utils"
+	"github.com/refraction-networking/uquic/internal/wire"
+	"github.com/refraction-networking/uquic/qlogwriter"
+)
+
+// VerifUnpackedLongHeader is unpackedPacket.
+type VerifUnpackedLongHeader struct {
+	Hdr             *wire.ExtendedHeader
+	EncryptionLevel protocol.EncryptionLevel
+	Data            []byte
+}
+
+// VerifRecvUnpacker mirrors the unexported unpacker interface. Errors are passed through unchanged
+// (handshake.ErrKeysDropped, handshake.ErrKeysNotYetAvailable, handshake.ErrDecryptionFailed,
+// wire.ErrInvalidReservedBits and AEAD errors are what the production unpacker returns).
+type VerifRecvUnpacker interface {
+	UnpackLongHeader(hdr *wire.Header, data []byte) (*VerifUnpackedLongHeader, error)
+	UnpackShortHeader(rcvTime monotime.Time, data []byte) (protocol.PacketNumber, protocol.PacketNumberLen, protocol.KeyPhaseBit, []byte, error)
+}
+
+type verifRecvUnpackerAdapter struct{ u VerifRecvUnpacker }
+
+var _ unpacker = &verifRecvUnpackerAdapter{}
+
+func (a *verifRecvUnpackerAdapter) UnpackLongHeader(hdr *wire.Header, data []byte) (*unpackedPacket, error) {
+	p, err := a.u.UnpackLongHeader(hdr, data)
+	if err != nil {
+		return nil, err
+	}
+	return &unpackedPacket{hdr: p.Hdr, encryptionLevel: p.EncryptionLevel, data: p.Data}, nil
+}
+
+func (a *verifRecvUnpackerAdapter) UnpackShortHeader(rcvTime monotime.Time, data []byte) (protocol.PacketNumber, protocol.PacketNumberLen, protocol.KeyPhaseBit, []byte, error) {
+	return a.u.UnpackShortHeader(rcvTime, data)
+}
+
+// VerifRecvRunner mirrors the part of connRunner that concerns the connection's own IDs.
+type VerifRecvRunner interface {
+	Add(protocol.ConnectionID)
+	Remove(protocol.ConnectionID)
+}
+
+type verifRecvRunnerAdapter struct{ r VerifRecvRunner }
+
+var _ connRunner = verifRecvRunnerAdapter{}
+
+func (a verifRecvRunnerAdapter) Add(id protocol.ConnectionID, _ packetHandler) bool {
+	a.r.Add(id)
+	return true
+}
+func (a verifRecvRunnerAdapter) Remove(id protocol.ConnectionID)                                { a.r.Remove(id) }
+func (verifRecvRunnerAdapter) ReplaceWithClosed([]protocol.ConnectionID, []byte, time.Duration) {}
+func (verifRecvRunnerAdapter) AddResetToken(protocol.StatelessResetToken, packetHandler)        {}
+func (verifRecvRunnerAdapter) RemoveResetToken(protocol.StatelessResetToken)                    {}
+
+// VerifRecvConnOpts describes the connection to build.
+type VerifRecvConnOpts struct {
+	Client bool
+	// SrcConnID is the connection's own first connection ID (Transport: connIDGenerator.GenerateConnectionID);
+	// its length is the connection's short-header connection ID length.
+	SrcConnID protocol.ConnectionID
+	// Generator issues the further IDs (Transport.ConnectionIDGenerator). ConnectionIDLen() must be SrcConnID.Len().
+	Generator ConnectionIDGenerator
+	// OrigDestConnID is the Destination Connection ID of the client's first Initial packet.
+	OrigDestConnID protocol.ConnectionID
+	// PeerSrcConnID (server only) is the Source Connection ID of the client's first Initial packet.
+	PeerSrcConnID protocol.ConnectionID
+	Config        *Config          // populated like Transport does (populateConfig); may be nil
+	Trace         qlogwriter.Trace // may be nil: the connection then has no qlog recorder
+	Unpacker      VerifRecvUnpacker
+	Runner        VerifRecvRunner
+}
+
+// VerifRecvConn is a connection whose receive path is driven by the harness.
+type VerifRecvConn struct {
+	c          *Conn
+	remoteAddr *net.UDPAddr
+	cancel     context.CancelCauseFunc
+}
+
+// VerifNewRecvConn constructs the connection (server: server.go handleInitialImpl; client: Transport.doDial).
+func VerifNewRecvConn(o VerifRecvConnOpts) *VerifRecvConn {
+	remoteAddr := &net.UDPAddr{IP: net.IPv4(1, 2, 3, 4), Port: 4321}
+	localAddr := &net.UDPAddr{IP: net.IPv4(127, 0, 0, 1), Port: 1234}
+	sc := &verifDiscardSendConn{localAddr: localAddr, remoteAddr: remoteAddr}
+	runner := verifRecvRunnerAdapter{r: o.Runner}
+	conf := populateConfig(o.Config)
+	var wc *wrappedConn
+	var cancel context.CancelCauseFunc
+	if o.Client {
+		ctx, cncl := context.WithCancelCause(context.Background())
+		cancel = cncl
+		wc = newClientConnection(
+			ctx,
+			sc,
+			runner,
+			o.OrigDestConnID,
+			o.SrcConnID,
+			o.Generator,
+			newStatelessResetter(nil),
+			conf,
+			&tls.Config{ServerName: "recv.verif.test"},
+			0,
+			false,
+			false,
+			o.Trace,
+			utils.DefaultLogger,
+			protocol.Version1,
+		)
+	} else {
+		ctx, cncl := context.WithCancelCause(context.Background())
+		cancel = cncl
+		wc = newConnection(
+			ctx,
+			cncl,
+			sc,
+			runner,
+			o.OrigDestConnID,
+			nil,
+			o.OrigDestConnID,
+			o.PeerSrcConnID,
+			o.SrcConnID,
+			o.Generator,
+			newStatelessResetter(nil),
+			conf,
+			&tls.Config{},
+			handshake.NewTokenGenerator(handshake.TokenProtectorKey{}),
+			true, // the client's address is validated: no anti-amplification limit (nothing is sent anyway)
+			0,
+			o.Trace,
+			utils.DefaultLogger,
+			protocol.Version1,
+		)
+	}
+	c := wc.Conn
+	c.unpacker = &verifRecvUnpackerAdapter{u: o.Unpacker}
+	return &VerifRecvConn{c: c, remoteAddr: remoteAddr, cancel: cancel}
+}
+
+// Deliver hands one UDP datagram to Conn.handlePacket (Transport.handlePacket -> packetHandler.handlePacket)
+// and then calls Conn.handlePackets as the run loop does on notifyReceivedPacket. data is copied into a
+// packet buffer of the pool (len(data) <= protocol.MaxPacketBufferSize). An error is what makes the run
+// loop close the connection (Conn.closeLocal): deliver nothing more afterwards.
+func (v *VerifRecvConn) Deliver(data []byte, ecn protocol.ECN) (wasProcessed bool, _ error) {
+	buf := getPacketBuffer()
+	buf.Data = append(buf.Data[:0], data...)
+	v.c.handlePacket(receivedPacket{
+		remoteAddr: v.remoteAddr,
+		rcvTime:    monotime.Now(),
+		data:       buf.Data,
+		buffer:     buf,
+		ecn:        ecn,
+	})
+	select { // the notification the run loop would consume
+	case <-v.c.notifyReceivedPacket:
+	default:
+	}
+	return v.c.handlePackets()
+}
+
+// HandleTransportParameters is the EventReceivedTransportParameters branch of Conn.handleHandshakeEvents. The
+// connection IDs the connection checks are filled in from the connection's own state
+// (initial_source_connection_id: the Source Connection ID of the peer's first packet;
+// original_destination_connection_id: client only).
+func (v *VerifRecvConn) HandleTransportParameters(peer *wire.TransportParameters) error {
+	p := *peer
+	p.InitialSourceConnectionID = v.c.handshakeDestConnID
+	if v.c.perspective == protocol.PerspectiveClient {
+		p.OriginalDestinationConnectionID = v.c.origDestConnID
+	}
+	return v.c.handleTransportParameters(&p)
+}
+
+// DropInitialKeys is what the client does when it sends its first Handshake packet
+// (Conn.sendPackedCoalescedPacket: dropEncryptionLevel(EncryptionInitial)). Nothing is sent here, so the
+// harness applies it at the point of the handshake where it happens.
+func (v *VerifRecvConn) DropInitialKeys() error {
+	if v.c.droppedInitialKeys {
+		return nil
+	}
+	return v.c.dropEncryptionLevel(protocol.EncryptionInitial, monotime.Now())
+}
+
+// CompleteHandshake applies EventHandshakeComplete and then Conn.handleHandshakeComplete, as Conn.run does
+// after the packet that completed the handshake. On the server the session ticket, the token and the
+// HANDSHAKE_DONE frame are left out (only the real packer / crypto setup would produce them): the remaining
+// steps of handleHandshakeComplete are applied one by one, as VerifNewSendLoopConn does.
+func (v *VerifRecvConn) CompleteHandshake() error {
+	c := v.c
+	now := monotime.Now()
+	c.handshakeComplete = true
+	if c.perspective == protocol.PerspectiveClient {
+		return c.handleHandshakeComplete(now)
+	}
+	close(c.handshakeCompleteChan)
+	c.undecryptablePackets = nil
+	c.connIDManager.SetHandshakeComplete()
+	c.connIDGenerator.SetHandshakeComplete(now.Add(3 * c.rttStats.PTO(false)))
+	return c.handleHandshakeConfirmed(now)
+}
+
+// RemoveRetiredConnIDs is connIDGenerator.RemoveRetiredConnIDs(now + after), the call the run loop makes
+// when the retirement timer fires.
+func (v *VerifRecvConn) RemoveRetiredConnIDs(after time.Duration) {
+	v.c.connIDGenerator.RemoveRetiredConnIDs(monotime.Now().Add(after))
+}
+
+// HandshakeComplete, HandshakeConfirmed and InitialKeysDropped read the connection's handshake state (what
+// decides which keys the production unpacker still has).
+func (v *VerifRecvConn) HandshakeComplete() bool  { return v.c.handshakeComplete }
+func (v *VerifRecvConn) HandshakeConfirmed() bool { return v.c.handshakeConfirmed }
+func (v *VerifRecvConn) InitialKeysDropped() bool { return v.c.droppedInitialKeys }
+
+// ReceivedFirstPacket is Conn.receivedFirstPacket.
+func (v *VerifRecvConn) ReceivedFirstPacket() bool { return v.c.receivedFirstPacket }
+
+// AckFrame is receivedPacketHandler.GetAckFrame(encLevel, now, false): the packet numbers the connection
+// has recorded as received at that level (nil: none, or the packet number space was dropped).
+func (v *VerifRecvConn) AckFrame(encLevel protocol.EncryptionLevel) *wire.AckFrame {
+	return v.c.receivedPacketHandler.GetAckFrame(encLevel, monotime.Now(), false)
+}
+
+// UndecryptableQueued is the number of packets queued for later decryption (Conn.undecryptablePackets).
+func (v *VerifRecvConn) UndecryptableQueued() int { return len(v.c.undecryptablePackets) }
+
+// QueuedControlFrames returns the connection-level control frames waiting in the framer, oldest first
+// (NEW_CONNECTION_ID frames of the connection's own IDs among them). Read-only.
+func (v *VerifRecvConn) QueuedControlFrames() []wire.Frame {
+	f := v.c.framer
+	f.controlFrameMutex.Lock()
+	defer f.controlFrameMutex.Unlock()
+	return append([]wire.Frame(nil), f.controlFrames...)
+}
+
+// Close releases what the constructor created (no run loop, no handshake goroutine exists): the crypto
+// setup is closed and the connection's context is cancelled.
+func (v *VerifRecvConn) Close() {
+	v.c.cryptoStreamHandler.Close()
+	if v.c.perspective == protocol.PerspectiveClient {
+		v.c.ctxCancel(nil)
+	}
+	v.cancel(nil)
+}
